@@ -31,7 +31,7 @@ class Chain:
         self.scripts = []
         self.opts = OPTS
 
-    def session(self, cmds, pol="proc", opts=None):
+    def session(self, cmds, pol="proc", opts=None, fail=None):
         """run cmds (after `open`) on the image (policy pol) of the previous session's cut; returns (out, log)"""
         self.n += 1
         root = os.path.join(self.dir, "s%d" % self.n, "root")
@@ -45,7 +45,7 @@ class Chain:
             sim = K.FsSim(root + "/db")
         script = ["e2 newat %s/db" % root, "e2 open %s" % (opts or self.opts)] + ["e2 " + c for c in cmds] + ["e2 abort"]
         self.scripts.append((pol, script))
-        out, log = K.trace(script, root)
+        out, log = K.trace(script, root, fail=fail)
         self.cur = (root + "/db", log, sim)
         return out, log
 
@@ -217,12 +217,51 @@ def torn_first():
     return hit, "\n".join(text)
 
 
+def relog_race():
+    """one session, directed schedule: txn2 fills the memtable in the middle (key 63 is inserted, 64 is not);
+    `apply` rotates the memtable and the WAL, wakes the background flush and only THEN logs txn2 again in the new
+    segment (`relog_if_rotated`).  The committing thread is held right before that WAL write (recorder kind
+    hold<ms>); the background task flushes the rotated memtable — a table with a PART of txn2 —, switches the
+    manifest to log_number 1 and releases segment 0.  A process crash at that point leaves the part of txn2 with no
+    complete record anywhere.  Returns (reproduced, text)."""
+    ch = Chain("relograce")
+    text = []
+    out, log = ch.session(C1 + C2, fail="1:hold1500:00000000000000000001.wal")
+    root = ch.cur[0]
+    hold = [i for i, l in enumerate(log) if l.startswith("H ")]
+    ren = [i for i, l in enumerate(log) if l.startswith("R ") and ".manifest" in l and hold and i > hold[0]]
+    wal1 = [i for i, l in enumerate(log) if l.startswith("W ") and hold and i > hold[0] and
+            any(x.startswith("O %s " % l.split()[1]) and x.rstrip().endswith("00000000000000000001.wal") for x in log[:i])]
+    if not hold:
+        return False, "the committing thread was never held (no rotation inside apply?)"
+    text.append("session 1 (options %s): txn1 {61,62} acknowledged; txn2 {63,64,65} fills the memtable after key 63; the committing thread is "
+                "held at log line %d, before it logs txn2 in segment 1" % (OPTS, hold[0]))
+    if not ren or (wal1 and ren[0] > wal1[0]):
+        text += show(log, root, hold[0], min(len(log), hold[0] + 40))
+        return False, "\n".join(text + ["the background flush did not switch the manifest before the held write (not reproduced)"])
+    k = ch.cut(lambda i, l, sim: i == ren[0])
+    text += show(log, root, max(0, hold[0] - 8), ren[0] + 1)
+    sim = ch.cur[2]
+    man = [f for p, f in ch.files.items() if p.endswith(".manifest")][0]
+    text.append("   PROCESS crash after line %d: manifest log_number=%d tables=%s; segment 1 is still empty (first write to it is log line %s)" % (
+        (k,) + P.manifest_decode(bytes(man.data))[:2] + (wal1[0] if wal1 else "-",)))
+    res = scan(ch, "proc")
+    text.append("session 2: open = %s, scan = %s" % res)
+    hit = res[0] == "ok" and "63=" in res[1] and "64=" not in res[1]
+    text.append("   key 63 of txn2 is recovered without 64 and 65 (txn2 was never acknowledged, but a part of it is visible)" if hit else "   (not reproduced)")
+    text += ["# scripts:"] + ["#  session %d (image policy %s): %s" % (i + 1, pol, " ; ".join(s_[1:])) for i, (pol, s_) in enumerate(ch.scripts)]
+    text.append("#  session 1 runs with VERIF_SHIM_FAIL=1:hold1500:00000000000000000001.wal")
+    ch.cleanup()
+    return hit, "\n".join(text)
+
+
 SCENARIOS = {
     # class name -> (property, scenario)
     "recovery_piece_part_of_txn_wal_unsynced": ("C03", piece),
     "recovery_nonlast_split_marked_flushed": ("C02", nonlast),
     "vlog_rotated_file_not_fsynced": ("C02", vlog_rotated),
     "acks_behind_torn_first_record_lost": ("C02", torn_first),
+    "flush_before_relog_part_of_txn": ("C03", relog_race),
 }
 
 
